@@ -190,49 +190,46 @@ func rulesPersistGuard(c *Ctx, r *Report) {
 				continue
 			}
 			top := funcName(topFunc(fn))
-			if !r.Check(clearers[top], r4, fn, "clear persist flag", cs.Instr, "tabled clearer", "the persist flag is cleared in "+top+", outside the executor and the forced cleanup") {
-				continue
-			}
-			switch top {
-			case "(*lib/persistedretry/writeback.Executor).Exec":
-				ok := false
-				for _, up := range callsInNamed(fn, "(*lib/persistedretry/writeback.Executor).upload") {
-					if inSuccessRegion(up.Instr, cs.Instr) {
-						ok = true
-					}
+			// discipline A (executor): in the success region of the upload
+			okA := false
+			for _, up := range callsInNamed(fn, "(*lib/persistedretry/writeback.Executor).upload") {
+				if inSuccessRegion(up.Instr, cs.Instr) {
+					okA = true
 				}
-				r.Check(ok, r4, fn, "executor: clear after upload", cs.Instr, "in success region of upload", "the executor clears the persist flag although the upload did not succeed: the local copy becomes deletable before write-back")
-			case "(*origin/blobserver.Server).maybeDelete":
-				ok := false
-				for _, l := range rangeLoops(fn) {
-					if !mentionsCall(l.Ranged, "(lib/persistedretry.Manager).Find") || !l.completedBefore(cs.Instr) {
+			}
+			// discipline B (forced cleanup): after a completed loop that synchronously
+			// executed every found write-back task, none of whose errors reaches the site
+			okB := false
+			for _, l := range rangeLoops(fn) {
+				if !mentionsCall(l.Ranged, "(lib/persistedretry.Manager).Find") || !l.completedBefore(cs.Instr) {
+					continue
+				}
+				for _, se := range callsInNamed(fn, "(lib/persistedretry.Manager).SyncExec") {
+					if !l.contains(se.Instr.Block()) || !l.derivesFromElem(se.Instr.Common().Args[0]) {
 						continue
 					}
-					for _, se := range callsInNamed(fn, "(lib/persistedretry.Manager).SyncExec") {
-						if !l.contains(se.Instr.Block()) || !l.derivesFromElem(se.Instr.Common().Args[0]) {
-							continue
-						}
-						leaks := false
-						for _, e0 := range errResults(se.Instr) {
-							for _, e := range errAliases(e0) {
-								for _, ed := range nilEdges(e, false) {
-									if ed.To == cs.Instr.Block() || reaches(ed.To, cs.Instr.Block()) {
-										leaks = true
-									}
+					leaks := false
+					for _, e0 := range errResults(se.Instr) {
+						for _, e := range errAliases(e0) {
+							for _, ed := range nilEdges(e, false) {
+								if ed.To == cs.Instr.Block() || reaches(ed.To, cs.Instr.Block()) {
+									leaks = true
 								}
 							}
 						}
-						if !leaks && l.everyIteration(se.Instr) {
-							ok = true
-						}
+					}
+					if !leaks && l.everyIteration(se.Instr) {
+						okB = true
 					}
 				}
-				fnd := callsInNamed(fn, "(lib/persistedretry.Manager).Find")
-				if len(fnd) != 1 || !inSuccessRegion(fnd[0].Instr, cs.Instr) {
-					ok = false
-				}
-				r.Check(ok, r4, fn, "forced cleanup: clear after SyncExec loop", cs.Instr, "all found tasks executed without error first", "the forced cleanup clears the persist flag without having synchronously executed every pending write-back task successfully")
 			}
+			fnd := callsInNamed(fn, "(lib/persistedretry.Manager).Find")
+			if len(fnd) != 1 || !inSuccessRegion(fnd[0].Instr, cs.Instr) {
+				okB = false
+			}
+			_ = clearers
+			r.Check(okA || okB, r4, fn, "clear persist flag", cs.Instr, tern3(okA, "in the success region of the executor's upload", "after every found write-back task was executed synchronously without error"),
+				"the persist flag is cleared in "+top+" neither in the success region of a write-back upload nor after a completed, error-free synchronous execution of every pending write-back task: the local copy becomes deletable before it is written back")
 		}
 		// Set with NewPersist(false)
 		for _, cs := range callsInNamed(fn, "lib/store/metadata.NewPersist") {
@@ -407,4 +404,11 @@ func checkC31(c *Ctx, r *Report) {
 		r.Check(complete && n > 0 && bad == 0, a3, up, "nil-return paths", nil, fmt.Sprintf("%d paths", n), fmt.Sprintf("%d of %d nil-returning paths of upload have none of the enumerated reasons: the task would be removed and the flag cleared without the blob being in the backend", bad, n))
 	}
 	rulesPersistGuard(c, r)
+}
+
+func tern3(c bool, a, b string) string {
+	if c {
+		return a
+	}
+	return b
 }
